@@ -126,7 +126,8 @@ Inductive ypoint :=
 | Y_hook_scan_begin | Y_hook_scan_iter | Y_hook_scan_store
 | Y_key_cache_miss | Y_key_cache_store
 | Y_env_load_environ | Y_env_var_names | Y_env_cleaned
-| Y_v1_cfg_flag | Y_v1_load_aliases_read | Y_v1_load_store.
+| Y_v1_cfg_flag | Y_v1_load_aliases_read | Y_v1_load_store
+| Y_env_names_update | Y_env_cleaned_update.
 
 Inductive prog :=
 | Ret (os : list outcome)                          (* outcomes of the calls of this thread *)
@@ -281,9 +282,12 @@ Definition outcomes (c : config) : list (option (list outcome)) := map finished 
    (Env.reload loads environ first) in place.  The one repair still only PROPOSED is F31; the
    harness detects from the source whether it is present (`no_fixes` = it is not). *)
 Record fixes := mkX {
-  fx31 : bool    (* the JSON-path tables are always (re)written: no `set_paths` guard *)
+  fx31 : bool;         (* the JSON-path tables are always (re)written: no `set_paths` guard (proposed F31 repair) *)
+  env_inplace : bool;  (* Env.load_environ(force_reload) refills the module-level `environ` dict IN PLACE
+                          (clear, update) instead of REBINDING the global to a complete fresh copy *)
+  h2b : bool           (* hook extension H2b: yield points before the in-place updates of Env.reload() *)
 }.
-Definition no_fixes : fixes := mkX false.
+Definition no_fixes : fixes := mkX false false false.   (* the current tree: F31 open, rebind, no H2b *)
 
 Record fdesc := mkF { fd_dflt : bool; fd_path : bool }.
 Record cdesc := mkC {
@@ -569,14 +573,29 @@ Definition call_dump (fx : fixes) (tid : nat) (cd : cdesc) (vals : list vty) : p
 Definition content (r : option val) : nat := match r with Some (VN (Datatypes.S _)) => 1 | _ => 0 end.
 Definition is_some {A} (o : option A) : bool := match o with Some _ => true | None => false end.
 
+(* The module-level `environ` is a reference (T_ENVIRON 0 -> object id) to a dict object whose
+   content lives in T_OBJ (1 = every variable of os.environ, 0 = empty / partially filled).
+   `set(environ)` and `environ[key]` go through the reference to the object. *)
+Definition p_env_content (c : nat -> prog) : prog :=
+  Rd T_ENVIRON 0 (fun e =>
+    match e with
+    | Some (VN eo) => Rd T_OBJ eo (fun r => c (content r))
+    | Some _ => Ret [OErr ETypeError]
+    | None => c 0
+    end).
+
+(* environ[key] for a variable that is set in os.environ *)
+Definition p_env_get (c : prog) : prog :=
+  p_env_content (fun ct => if Nat.eqb ct 1 then c else Ret [OErr EKeyError]).
+
 (* Env.var_names (cached_class_property): returns the object id *)
 Definition p_varnames (oid : nat) (c : nat -> prog) : prog :=
   Rd T_VARNAMES 0 (fun r =>
     match r with
     | Some (VN a) => c a
     | Some _ => Ret [OErr ETypeError]
-    | None => Yield Y_env_var_names (Rd T_ENVIRON 0 (fun e =>
-                Wr T_OBJ oid (VN (if is_some e then 1 else 0)) (Wr T_VARNAMES 0 (VN oid) (c oid))))
+    | None => Yield Y_env_var_names (p_env_content (fun ct =>
+                Wr T_OBJ oid (VN ct) (Wr T_VARNAMES 0 (VN oid) (c oid))))
     end).
 
 Definition p_member (oid : nat) (c : nat -> prog) : prog :=
@@ -592,41 +611,58 @@ Definition p_cleaned (tid : nat) (c : nat -> prog) : prog :=
                 Wr T_OBJ (10 * tid + 3) (VN ct) (Wr T_CLEANED 0 (VN (10 * tid + 3)) (c (10 * tid + 3))))))
     end).
 
-(* Env.load_environ(force_reload) *)
-Definition p_load_environ (tid : nat) (force : bool) (c : prog) : prog :=
+(* Env.load_environ(force_reload).
+   REBIND  (current tree): `environ = os.environ.copy()` - a complete new dict is built privately and
+           published by one assignment of the global;
+   IN PLACE (env_inplace): `environ.clear(); environ.update(os.environ)` - the dict every reader holds
+           is emptied and refilled (a Python-level loop), so it is transiently empty / partial. *)
+Definition p_load_environ (fx : fixes) (tid : nat) (force : bool) (c : prog) : prog :=
   Rd T_ENVIRON 0 (fun e =>
     let not_setup := negb (is_some e) in
     if not_setup || force then
-      Yield Y_env_load_environ (Wr T_ENVIRON 0 VU
-        (if not_setup then c
-         else Wr T_OBJ (10 * tid + 2) (VN 1) (Wr T_VARNAMES 0 (VN (10 * tid + 2))
-                (Rd T_ACCESSED 0 (fun a =>
-                   if is_some a
-                   then p_member (10 * tid + 1) (fun ct =>
-                          Wr T_OBJ (10 * tid + 4) (VN ct) (Wr T_CLEANED 0 (VN (10 * tid + 4)) c))
-                   else c)))))
+      Yield Y_env_load_environ
+        (let refresh :=       (* cls.var_names = set(environ); cleaned_to_env rebuilt if it was ever accessed *)
+           p_env_content (fun ct =>
+             Wr T_OBJ (10 * tid + 2) (VN ct) (Wr T_VARNAMES 0 (VN (10 * tid + 2))
+               (Rd T_ACCESSED 0 (fun a =>
+                  if is_some a
+                  then p_member (10 * tid + 1) (fun ct2 =>
+                         Wr T_OBJ (10 * tid + 4) (VN ct2) (Wr T_CLEANED 0 (VN (10 * tid + 4)) c))
+                  else c)))) in
+         match e with
+         | None => Wr T_OBJ (10 * tid + 5) (VN 1) (Wr T_ENVIRON 0 (VN (10 * tid + 5)) c)
+         | Some ev =>
+             if env_inplace fx
+             then match ev with
+                  | VN eo => Wr T_OBJ eo (VN 0) (Wr T_OBJ eo (VN 1) refresh)
+                  | _ => Ret [OErr ETypeError]
+                  end
+             else Wr T_OBJ (10 * tid + 6) (VN 1) (Wr T_ENVIRON 0 (VN (10 * tid + 6)) refresh)
+         end)
     else c).
 
 (* Env.reload() *)
-Definition p_reload (tid : nat) (c : prog) : prog :=
-  p_load_environ tid false          (* F34 repair: `environ` is loaded before var_names is touched *)
+Definition p_reload (fx : fixes) (tid : nat) (c : prog) : prog :=
+  let yb (y : ypoint) (k : prog) := if h2b fx then Yield y k else k in
+  p_load_environ fx tid false       (* F34 repair: `environ` is loaded before var_names is touched *)
   (p_varnames (10 * tid + 1) (fun a =>
-    p_load_environ tid true
+    p_load_environ fx tid true
       (Rd T_OBJ a (fun old =>
-         Wr T_OBJ a (VN 1)
+         yb Y_env_names_update (Wr T_OBJ a (VN 1)           (* env_vars.update(new_vars): in place, only adds *)
            (Rd T_ACCESSED 0 (fun acc =>
               if is_some acc
               then p_cleaned tid (fun cobj => Rd T_OBJ cobj (fun cc =>
-                     Wr T_OBJ cobj (VN (if Nat.eqb (content old) 1 then content cc else 1)) c))
-              else c)))))).
+                     yb Y_env_cleaned_update
+                       (Wr T_OBJ cobj (VN (if Nat.eqb (content old) 1 then content cc else 1)) c)))
+              else c))))))).
 
-Definition call_env (tid : nat) (reload : bool) : prog :=
-  (if reload then p_reload tid else p_load_environ tid false)
+Definition call_env (fx : fixes) (tid : nat) (reload : bool) : prog :=
+  (if reload then p_reload fx tid else p_load_environ fx tid false)
     (p_member (10 * tid + 1) (fun c1 =>            (* upper_key in Env.var_names *)
-       if Nat.eqb c1 1 then Ret [OSeq]
+       if Nat.eqb c1 1 then p_env_get (Ret [OSeq]) (* return environ[upper_key] *)
        else p_member (10 * tid + 1) (fun _ =>      (* field_name in Env.var_names *)
               p_cleaned tid (fun cobj => Rd T_OBJ cobj (fun cc =>   (* try_cleaned *)
-                Ret [if Nat.eqb (content cc) 1 then OSeq else OErr EMissingVars]))))).
+                if Nat.eqb (content cc) 1 then p_env_get (Ret [OSeq]) else Ret [OErr EMissingVars]))))).
 
 (* ------- abstract protocol: first load of a v1 class with a CatchAll field (class key 1) *)
 (* The alias set-up writes the catch-all entry into the shared alias table once (guarded by
@@ -658,7 +694,7 @@ Definition call_prog (fx : fixes) (tid : nat) (cd : cdesc) (c : call) : prog :=
   match c with
   | CLoad ks => call_load fx tid cd ks
   | CDump vals => call_dump fx tid cd vals
-  | CEnv reload => call_env tid reload
+  | CEnv reload => call_env fx tid reload
   | CV1Load => call_v1_catchall
   end.
 
@@ -700,6 +736,7 @@ Definition show_yp (y : ypoint) : pstr :=
   | Y_env_cleaned => S "env.cleaned"
   | Y_v1_cfg_flag => S "v1_cfg.flag" | Y_v1_load_aliases_read => S "v1_load.aliases_read"
   | Y_v1_load_store => S "v1_load.store"
+  | Y_env_names_update => S "env.names_update" | Y_env_cleaned_update => S "env.cleaned_update"
   end.
 
 Definition show_err (e : err) : pstr :=
@@ -762,10 +799,13 @@ Definition yp_code (y : ypoint) : pstr :=
   | Y_v1_cfg_flag => S "E"
   | Y_v1_load_aliases_read => S "F"
   | Y_v1_load_store => S "G"
+  | Y_env_names_update => S "H"
+  | Y_env_cleaned_update => S "I"
   end.
 
 Definition all_ypoints : list ypoint :=
-  [Y_fields_miss; Y_defaults_miss; Y_defaults_registered; Y_defaults_fill; Y_load_cfg_begin; Y_load_cfg_field; Y_load_cfg_store; Y_dump_cfg_begin; Y_dump_cfg_paths_read; Y_dump_cfg_field; Y_dump_cfg_flag; Y_loader_miss; Y_dumper_miss; Y_load_miss; Y_load_gen; Y_load_setattr; Y_load_store; Y_dump_miss; Y_dump_gen; Y_dump_cfg_done; Y_dump_setattr; Y_dump_store; Y_hook_scan_begin; Y_hook_scan_iter; Y_hook_scan_store; Y_key_cache_miss; Y_key_cache_store; Y_env_load_environ; Y_env_var_names; Y_env_cleaned; Y_v1_cfg_flag; Y_v1_load_aliases_read; Y_v1_load_store].
+  [Y_fields_miss; Y_defaults_miss; Y_defaults_registered; Y_defaults_fill; Y_load_cfg_begin; Y_load_cfg_field; Y_load_cfg_store; Y_dump_cfg_begin; Y_dump_cfg_paths_read; Y_dump_cfg_field; Y_dump_cfg_flag; Y_loader_miss; Y_dumper_miss; Y_load_miss; Y_load_gen; Y_load_setattr; Y_load_store; Y_dump_miss; Y_dump_gen; Y_dump_cfg_done; Y_dump_setattr; Y_dump_store; Y_hook_scan_begin; Y_hook_scan_iter; Y_hook_scan_store; Y_key_cache_miss; Y_key_cache_store; Y_env_load_environ; Y_env_var_names; Y_env_cleaned; Y_v1_cfg_flag; Y_v1_load_aliases_read; Y_v1_load_store;
+   Y_env_names_update; Y_env_cleaned_update].
 
 (* "name=code,name=code,..." : lets the harness check its own code table against this one *)
 Definition show_codes : pstr :=
